@@ -95,6 +95,22 @@ CHECKS = {
             "are replayed against the golden table.",
             "Histories sampled by TLC simulation; golden alias table transcribed once from the pinned tree's documented table; slot "
             "names are accepted unit strings; wrong-dimension names not exercised.", "DESIGN.md §4 C18"),
+    "C09": ("TLA+ spec DragLookup.tla (small-step table search) model-checked by TLC; every table-shape x query case replayed into the "
+            "real curve/lookup and drag_by_mach; Trace_DragLookup validates queries on shipped/custom tables; golden table identity",
+            "TLC checks on every table shape (3..6/7 nodes, gaps 1..3) and quarter-grid query that the chosen curve piece passes "
+            "through both neighbours of the query (last three points beyond the table) and refutes the inverted nearest-node rule; all "
+            "cases are replayed with the piece identified by exact rational evaluation; shipped and custom tables are queried at and "
+            "1 ulp around every node and midpoint (node values, positivity, 5% band, retardation constant) and validated by the trace spec.",
+            "Integer tables bounded; real-table queries enumerated per node/midpoint; published tables cannot be fetched offline - "
+            "identity = golden digests transcribed from the pinned tree; constant compared to 1e-5.", "DESIGN.md §4 C09"),
+    "C14": ("TLA+ spec MultiBC.tla (heap of data-point objects, exact rational interpolation law) model-checked by TLC; every build "
+            "history replayed on real objects with heap snapshots",
+            "TLC checks law realised, no input mutation, shared model unaffected, idempotence and order-insensitivity over all build "
+            "histories and refutes the pinned in-place rule; all generated histories are replayed (tables as dicts / caller-owned data "
+            "points / another model's table by reference; points by Mach or velocity in several units; with/without weight+diameter) "
+            "comparing every model's multipliers with the spec's exact rationals after every build and snapshotting every input object.",
+            "Integer Mach grid of 5 nodes, 7 point lists, 3 (thorough 4) builds; law compared to 1e-9 (1e-5 for velocity-given points in "
+            "non-SI units); shipped tables exercised for the heap clauses only.", "DESIGN.md §4 C14"),
 }
 
 NOT_APPLICABLE = {
